@@ -382,7 +382,12 @@ class QvmCpu:
         instr, operands, size = self.get_current_instruction()
         if instr.op == 'call':
             prev_pc = self.pc
-            bp = lambda cpu: (cpu.pc == prev_pc + size)
+            frame = self.cur_frame
+            # in a recursive routine the instruction after this call is
+            # also reached by deeper activations; only stop when we are
+            # back in the frame we started in
+            bp = lambda cpu: (cpu.pc == prev_pc + size and
+                              cpu.cur_frame is frame)
             self.add_breakpoint(bp)
             try:
                 ret = self.run()
